@@ -80,6 +80,12 @@ Definition build_data (t : dtree) : list vec4 := mleaves (fwd_mtree id3 t).
 (* ---------------------------------------------------------------- backward: one vertex
    EulerAngle.angle_zx_z_getx(z1, x1, z2) :285-310 *)
 Record hel := Hel { cosb : R; cosa : R; sina : R; xnext : vec3 }.
+(* (cos, sin) of atan2(y, x) *)
+Definition atan2_cos (x y : R) : R := x / sqrt (x * x + y * y).
+Definition atan2_sin (x y : R) : R := y / sqrt (x * x + y * y).
+(* Vector3.angle_from(self = v, x, y) = atan2(v.y, v.x) *)
+Definition angle_from_cos (v x y : vec3) : R := atan2_cos (dot3 v x) (dot3 v y).
+Definition angle_from_sin (v x y : vec3) : R := atan2_sin (dot3 v x) (dot3 v y).
 Definition hel_extract (z1 x1 z2 : vec3) : hel :=
   let u_z1 := unit3 z1 in
   let u_z2 := unit3 z2 in
@@ -87,10 +93,8 @@ Definition hel_extract (z1 x1 z2 : vec3) : hel :=
   let u_x1 := cross_unit u_y1 z1 in
   let u_yr := cross_unit z1 z2 in
   let u_xr := cross_unit u_yr z1 in
-  let ax := dot3 u_xr u_x1 in let ay := dot3 u_xr u_y1 in   (* alpha = atan2(ay, ax) *)
-  let bx := dot3 u_z2 u_z1 in let by_ := dot3 u_z2 u_xr in  (* beta  = atan2(by, bx) *)
-  Hel (bx / sqrt (bx * bx + by_ * by_))
-      (ax / sqrt (ax * ax + ay * ay)) (ay / sqrt (ax * ax + ay * ay))
+  Hel (angle_from_cos u_z2 u_z1 u_xr)                               (* beta  = angle_from(u_z2, u_z1, u_xr) *)
+      (angle_from_cos u_xr u_x1 u_y1) (angle_from_sin u_xr u_x1 u_y1) (* alpha = angle_from(u_xr, u_x1, u_y1) *)
       (cross_unit u_yr u_z2).
 
 (* ---------------------------------------------------------------- backward: whole tree *)
